@@ -254,6 +254,59 @@ def main(quick=False):
           determinate=False)
     audit("add.reduceat on booleans (integer accumulator)", lambda m, a, i: m.add.reduceat(a, i), lambda m, a, i: np.add.reduceat(a, i),
           [(a, i) for a in B if len(a) for i in [np.array(t) for k in (1, 2) for t in itertools.product(range(len(a)), repeat=k)]][::3], determinate=False)
+    # SpecRagged (vf/proofs/specragged.py), the contract-level stand-in for RaggedArray operands, against the real RaggedArray
+    from .proofs.specragged import SpecRagged, SpecShape
+    from npstructures import RaggedArray
+
+    def chain(pairs, default):
+        out = default
+        for cond, val in reversed(pairs):
+            out = z3.If(cond, val, out)
+        return out
+
+    def spec_of(rows):
+        n = len(rows)
+        L = lambda r: chain([(r == i, z3.IntVal(len(row))) for i, row in enumerate(rows)], z3.IntVal(0))
+        cell = lambda r, c_: chain([(z3.And(r == i, c_ == j), z3.IntVal(int(v))) for i, row in enumerate(rows) for j, v in enumerate(row)], z3.IntVal(0))
+        return SpecRagged(SpecShape(z3.IntVal(n), L, "aud"), cell, "int", np.int64, "aud")
+
+    def real_of(rows):
+        return RaggedArray(np.array([v for row in rows for v in row], dtype=np.int64), [len(r) for r in rows])
+
+    def both(op_spec, op_real=None):
+        op_real = op_real or op_spec
+
+        def fs(m, rows_arr, *rest):
+            x = op_spec(spec_of(rows_arr), *rest)
+            return (x.lengths, x.ravel()) if isinstance(x, SpecRagged) else x
+
+        def fr(m, rows_arr, *rest):
+            x = op_real(real_of(rows_arr), *rest)
+            return (np.asarray(x.lengths), np.asarray(x.ravel())) if isinstance(x, RaggedArray) else np.asarray(x)
+        return fs, fr
+
+    class Rows(list):            # a list of rows that the audit harness passes through unchanged
+        def copy(self):
+            return Rows([list(r) for r in self])
+    ROWS = [Rows(r) for r in ([[5]], [[1, 2], [3]], [[1, 2, 3], [4, 5]], [[7, 8], [9, 10], [11, 12, 13]], [[1], [2], [3, 4]])]
+    for j in (0, -1, 1):
+        audit(f"SpecRagged x[:, {j}]", *both(lambda x, j=j: x[:, j]), [(r,) for r in ROWS if all(-len(row) <= j < len(row) for row in r)], max_index=8)
+    for sl_ in (slice(None, -1), slice(1, None), slice(None, None, -1), slice(0, 2), slice(None, None, 2), slice(-2, None)):
+        audit(f"SpecRagged x[:, {sl_}]", *both(lambda x, sl_=sl_: x[:, sl_]), [(r,) for r in ROWS], max_index=8)
+    audit("SpecRagged x - scalar / scalar - x", *both(lambda x: (10 - x) - 3), [(r,) for r in ROWS], max_index=8)
+    audit("SpecRagged x - column / column - x", *both(lambda x: (np.arange(len(x.lengths) if not isinstance(x, SpecRagged) else len(ROWS[0]) * 0 + int(str(x._shape.n)))[:, None] * 10 - x) - np.ones((int(str(x._shape.n)) if isinstance(x, SpecRagged) else len(x), 1), dtype=int)),
+          [(r,) for r in ROWS], max_index=8)
+    audit("SpecRagged x - y", *both(lambda x: x - x[:, ::-1]), [(r,) for r in ROWS], max_index=8)
+
+    def _assign(j, vec):
+        def f(x):
+            n = int(str(x._shape.n)) if isinstance(x, SpecRagged) else len(x)
+            x[..., j] = (np.arange(n) + 100) if vec else 77
+            return x
+        return f
+    for j in (0, -1):
+        for vec in (False, True):
+            audit(f"SpecRagged x[..., {j}] = {'vector' if vec else 'scalar'}", *both(_assign(j, vec)), [(r,) for r in ROWS], max_index=8)
     audit("uint64 shifts (shift >= 64 gives 0)", lambda m, x, s: (x << s, x >> s), lambda m, x, s: (x << s, x >> s),
           [(np.array([1, 2 ** 63, 2 ** 64 - 1, 5], dtype=np.uint64), np.uint64(s)) for s in (0, 1, 8, 63, 64)])
     dt = time.time() - t0
